@@ -1,7 +1,7 @@
 //! S->I executor for ZoneFile.tla cases (C07).
 #[path = "../zf.rs"]
 mod zf;
-use serde_json::{json, Value};
+use serde_json::Value;
 use std::io::BufRead;
 use verif_harness::common::*;
 
